@@ -49,6 +49,10 @@ type Env struct {
 	Last     *lab.Obs
 	NTx      int
 	BlockTxs [][]byte // raw txs delivered in the current block
+	// SpendableAtNewTime: every lab account's spendable coins on the pre-BeginBlock state but
+	// evaluated at the new block's time (so vesting progress is not mistaken for a credit)
+	SpendableAtNewTime map[string]sdk.Coins
+	BlockEvents        []abci.Event // all events of the current block (begin, txs, end)
 	// recorder of blocks (for replicas)
 	Record bool
 	Blocks []RecBlock
@@ -101,7 +105,16 @@ func (e *Env) BeginBlock(dt time.Duration) {
 	}
 	pre := e.Last
 	var resp abci.ResponseBeginBlock
+	{
+		cx := e.L.Ctx().WithBlockTime(e.L.Time.Add(dt))
+		e.SpendableAtNewTime = map[string]sdk.Coins{}
+		for _, a := range e.L.Accts {
+			e.SpendableAtNewTime[a.Addr.String()] = e.L.App.BankKeeper.SpendableCoins(cx, a.Addr)
+		}
+	}
+	e.BlockEvents = nil
 	protect("BeginBlock", &e.Halted, func() { resp = e.L.Begin(dt) })
+	e.BlockEvents = append(e.BlockEvents, resp.Events...)
 	if e.Halted != "" {
 		e.tracef("h=%d HALT %s", e.L.Height, e.Halted)
 		return
@@ -142,6 +155,7 @@ func (e *Env) DeliverRaw(tx *TxPlan, bz []byte) abci.ResponseDeliverTx {
 		e.cur.Txs = append(e.cur.Txs, bz)
 	}
 	resp := e.L.Deliver(bz)
+	e.BlockEvents = append(e.BlockEvents, resp.Events...)
 	e.NTx++
 	lg := resp.Log
 	if resp.Code == 0 {
@@ -172,6 +186,7 @@ func (e *Env) EndBlock() []byte {
 	pre := e.Last
 	var er abci.ResponseEndBlock
 	protect("EndBlock", &e.Halted, func() { er = e.L.EndNoCommit() })
+	e.BlockEvents = append(e.BlockEvents, er.Events...)
 	if e.Halted != "" {
 		e.tracef("h=%d HALT %s", e.L.Height, e.Halted)
 		return nil
